@@ -10,6 +10,9 @@ from .core import Ctx, EXIT_HARNESS
 
 
 def main():
+    if os.environ.get("VERIF_TRACE"):
+        import faulthandler
+        faulthandler.dump_traceback_later(int(os.environ["VERIF_TRACE"]), repeat=True)
     ap = argparse.ArgumentParser()
     ap.add_argument("pid", nargs="?")
     ap.add_argument("--tier", default=os.environ.get("VERIF_TIER", "quick"))
